@@ -97,6 +97,20 @@ func emitPP(id string, content []byte, level, pf, lit string, banner bool, ngor 
 	if d, de := runPPEnv(content, append(dargs, "-no-color"), banner, []string{"GOROOT=/nonexistent/goroot", "GOPATH=/nonexistent/gopath"}); d != plain || de != pe {
 		def = "0"
 	}
+	// -html: the dumps go to the HTML file, everything else still passes through to stdout, to the last byte
+	if junks != "-" && def == "1" {
+		want := ""
+		for _, h := range strings.Split(junks, ",") {
+			want += string(unhexs(h))
+		}
+		os.MkdirAll("/tmp/vhg", 0o755)
+		hf := fmt.Sprintf("/tmp/vhg/pp-%d.html", os.Getpid())
+		got, code := runPP(content, append(append([]string{}, base...), "-no-color", "-html", hf), banner)
+		os.Remove(hf)
+		if got != want || code != pe {
+			def = "H"
+		}
+	}
 	filt, fe, mat, me := "", 0, "", 0
 	if lit != "" {
 		q := regexp.QuoteMeta(lit)
@@ -181,6 +195,10 @@ func opPP(r *rand.Rand, n int, tier string) {
 				}
 				if k == nd-1 && r.Intn(4) == 0 {
 					j = "exit status 2" // exactly one unterminated line after the last dump
+				}
+				if k == 0 && r.Intn(3) == 0 {
+					// more text after the first dump than the read-ahead buffer holds
+					j += variedText(r, 18000+r.Intn(9000)) + "\n" + genJunk(r, 1+r.Intn(2), true, false)
 				}
 				// no indentation: an indented dump followed by unindented text ends with a scan error (observation O1)
 				v := g.variant()
